@@ -33,6 +33,11 @@ def extract(cap):
     if "IDLE3" not in parked or not cnt:
         raise spsc.ExtractFailed("idle-poll yield points not where the model expects them")
     k["RecheckOnRemove"] = cnt[0] == 2
+    # reader publish batch as a percentage of the capacity (the model applies it to every buffer of an unbounded queue)
+    pct = -(-k["Batch"] * 100 // cap)
+    if (cap * pct) // 100 != k["Batch"]:
+        raise spsc.ExtractFailed(f"publish batch {k['Batch']} of capacity {cap} is not a whole percentage")
+    k["Pct"] = pct
     return k
 
 
@@ -42,10 +47,10 @@ def cfg_text(k, c, export, invariants, spec="Spec", props=()):
     b = lambda x: "TRUE" if x else "FALSE"
     th = "{" + ",".join('"%s"' % t for t in c["threads"]) + "}"
     return ("SPECIFICATION %s\nCONSTANTS Threads = %s\n NStmt = %d\n NFlush = %d\n Sizes = {%s}\n FlushSz = %d\n RmSz = %d\n Bounded = %s\n"
-            " Dropping = %s\n Cap = %d\n Batch = %d\n PublishWhenDrained = %s\n Soft = %d\n Hard = %d\n Grace = %d\n MaxTime = %d\n"
+            " Dropping = %s\n Cap = %d\n MaxCap = %d\n Pct = %d\n AllowShrink = %s\n PublishWhenDrained = %s\n Soft = %d\n Hard = %d\n Grace = %d\n MaxTime = %d\n"
             " AllowExit = %s\n ReportOnRemove = %s\n Loggers = {%s}\n AllowRemove = %s\n RecheckOnRemove = %s\n Export = %s\n%s%s%s%sCHECK_DEADLOCK FALSE\n"
             % (spec, th, c["nstmt"], c["nflush"], ",".join(map(str, c["sizes"])), FLUSH_SZ, FLUSH_SZ + 4 + 2, b(c["bounded"]), b(c["dropping"]),
-               c["cap"], k["Batch"], b(k["PublishWhenDrained"]), c["soft"], c["hard"], c["grace"], c["maxtime"], b(c["exit"]),
+               c["cap"], maxcap_of(c), k["Pct"], b(c.get("shrink", False)), b(k["PublishWhenDrained"]), c["soft"], c["hard"], c["grace"], c["maxtime"], b(c["exit"]),
                b(k["ReportOnRemove"]), ",".join('"%s"' % l for l in c.get("loggers", ["L0"])), b(c.get("remove", False)),
                b(k.get("RecheckOnRemove", True)), b(export),
                ("INVARIANTS " + " ".join(invariants) + "\n") if invariants else "",
@@ -54,13 +59,17 @@ def cfg_text(k, c, export, invariants, spec="Spec", props=()):
                {True: "ACTION_CONSTRAINT ExportA\n", "sim": "ACTION_CONSTRAINT ExportSim\n"}.get(export, "")))
 
 
-ACTIONS = ["RemoveLogger", "RemoveBlockingStart", "RemoveBlockingCheck", "LogStart", "Enqueue", "FlushStart", "FlushCheck", "ThreadExit", "BStart", "BRead", "BProc", "BAfterPop", "BBatchIter",
+ACTIONS = ["ShrinkQueue", "RemoveLogger", "RemoveBlockingStart", "RemoveBlockingCheck", "LogStart", "Enqueue", "FlushStart", "FlushCheck", "ThreadExit", "BStart", "BRead", "BProc", "BAfterPop", "BBatchIter",
            "BIdle0", "BIdle1", "BIdle2", "BIdle3"]
+
+
+def maxcap_of(c):
+    return c["cap"] if c["bounded"] else c.get("maxcap", c["cap"] * 64)
 
 
 def qk_of(c):
     qt = ("B" if c["bounded"] else "U") + ("D" if c["dropping"] else "B")
-    return f"{qt}:{c['cap']}:{c['cap'] if c['bounded'] else c['cap'] * 64}"
+    return f"{qt}:{c['cap']}:{maxcap_of(c)}"
 
 
 def script_of(beh, c):
@@ -86,6 +95,8 @@ def script_of(beh, c):
             L.append(f"join {who}")
         elif act == "tick":
             L.append("tick 1")
+        elif act == "shrink":
+            L.append(f"T {who} shrink {h['arg'][0]}")
         elif act == "remove":
             L.append(f"remove {h['arg'][0]}")
         elif act == "rmbstart":
@@ -134,7 +145,7 @@ def compare(beh, evs, c):
     if len(snaps) < len(steps):
         return f"harness stopped after {len(snaps)} of {len(steps)} steps"
     for j, h in enumerate(steps):
-        for t, (qb, unpub, rlen) in h["pre"].items():
+        for t, (qb, unpub, rlen, pcap, ccap, nnodes) in h["pre"].items():
             s = snaps[j].get(t)
             if s is None:
                 if qb or rlen:
@@ -146,6 +157,9 @@ def compare(beh, evs, c):
                     return f"step {j} {h['who']}.{h['act']}: {t} queued bytes code={real_q} model={qb}"
                 if s["r"] - s["ar"] != unpub:
                     return f"step {j} {h['who']}.{h['act']}: {t} unpublished bytes code={s['r'] - s['ar']} model={unpub}"
+            if not c["bounded"] and (s["pcap"], s["ccap"], s["same"]) != (pcap, ccap, nnodes == 1):
+                return (f"step {j} {h['who']}.{h['act']}: {t} buffers code=(producer {s['pcap']}, consumer {s['ccap']}, same {s['same']}) "
+                        f"model=(producer {pcap}, consumer {ccap}, chain {nnodes})")
             if s.get("ring", 0) != rlen:
                 return f"step {j} {h['who']}.{h['act']}: {t} transit events code={s.get('ring', 0)} model={rlen}"
         if j < len(writes) and writes[j] != exp_w[j]:
@@ -264,7 +278,8 @@ CONFIGS = {
     "C03": {"quick": [("b-soft2", dict(nstmt=2, sizes=[120], soft=2, hard=2))],
             "thorough": [("b-2sizes", dict(nstmt=2, sizes=[96, 200], exit=False)), ("b-soft2", dict(nstmt=2, sizes=[120], soft=2, hard=2)),
                          ("b-3thr", dict(threads=["t1", "t2", "t3"], nstmt=1, sizes=[96, 200])),
-                         ("u-soft2", dict(nstmt=2, sizes=[120], soft=2, hard=4, bounded=False))]},
+                         ("u-soft2", dict(nstmt=2, sizes=[120], soft=2, hard=4, bounded=False)),
+                         ("u-grow", dict(nstmt=2, sizes=[120, 300], bounded=False, maxcap=512, exit=False))]},
     "C05": {"quick": [("grace1", dict(nstmt=1, sizes=[96], grace=1, maxtime=7, exit=False))],
             "thorough": [("grace1-2stmt", dict(nstmt=2, sizes=[96], grace=1, maxtime=8, exit=False)),
                          ("grace2", dict(nstmt=1, sizes=[96], grace=2, maxtime=9, exit=False, soft=2))]},
@@ -275,18 +290,25 @@ CONFIGS = {
     "C08": {"quick": [("drop", dict(nstmt=2, sizes=[120, 300], dropping=True, exit=False))],
             "thorough": [("drop-exit", dict(nstmt=2, sizes=[120, 300], dropping=True, exit=True)),
                          ("drop-flush", dict(nstmt=2, nflush=1, sizes=[200, 300], dropping=True, exit=True, threads=["t1"])),
+                         ("ud-max", dict(nstmt=3, sizes=[300], dropping=True, bounded=False, maxcap=512, exit=False, threads=["t1"])),
                          ("drop-flush2", dict(nstmt=1, nflush=1, sizes=[230], dropping=True, exit=True, maxtime=7))]},
-    "C09": {"quick": [("one-thread", dict(threads=["t1"], nstmt=3, sizes=[40, 100, 256], exit=False))],
+    "C09": {"quick": [("one-thread", dict(threads=["t1"], nstmt=3, sizes=[40, 100, 256], exit=False)),
+                      ("u-max", dict(threads=["t1"], nstmt=3, sizes=[300, 500], bounded=False, maxcap=512, exit=False))],
             "thorough": [("one-thread", dict(threads=["t1"], nstmt=4, sizes=[40, 100, 256], exit=False)),
-                         ("two-threads", dict(nstmt=2, sizes=[40, 256], exit=False))]},
+                         ("two-threads", dict(nstmt=2, sizes=[40, 256], exit=False)),
+                         ("u-max", dict(threads=["t1"], nstmt=4, sizes=[300, 500], bounded=False, maxcap=512, exit=False)),
+                         ("u-max-2thr", dict(nstmt=2, sizes=[300], bounded=False, maxcap=512, exit=False))]},
     "C17": {"quick": [("remove", dict(nstmt=1, sizes=[96], exit=False, loggers=["L0", "L1"], remove=True, threads=["t1"])),
                       ("remove-2thr", dict(nstmt=1, sizes=[200], exit=False, loggers=["L0"], remove=True))],
             "thorough": [("remove-2stmt", dict(nstmt=2, sizes=[96], exit=False, loggers=["L0", "L1"], remove=True, threads=["t1"])),
                          ("remove-exit", dict(nstmt=1, sizes=[96], exit=True, loggers=["L0", "L1"], remove=True)),
                          ("remove-soft2", dict(nstmt=1, sizes=[96], exit=False, loggers=["L0", "L1"], remove=True, soft=2))]},
-    "C20": {"quick": [("exit2", dict(nstmt=1, sizes=[96], exit=True))],
+    "C20": {"quick": [("exit2", dict(nstmt=1, sizes=[96], exit=True)),
+                      ("u-shrink", dict(threads=["t1"], nstmt=3, sizes=[200, 600], bounded=False, maxcap=1024, exit=True, shrink=True))],
             "thorough": [("exit3", dict(threads=["t1", "t2", "t3"], nstmt=1, sizes=[96], exit=True)),
-                         ("exit-flush", dict(nstmt=1, nflush=1, sizes=[96], exit=True))]},
+                         ("exit-flush", dict(nstmt=1, nflush=1, sizes=[96], exit=True)),
+                         ("u-shrink", dict(threads=["t1"], nstmt=4, sizes=[200, 600], bounded=False, maxcap=1024, exit=True, shrink=True)),
+                         ("u-shrink-2thr", dict(nstmt=2, sizes=[600], bounded=False, maxcap=1024, exit=True, shrink=True))]},
 }
 LIVE = {"C09": ("live-resume", dict(threads=["t1"], nstmt=3, sizes=[40, 256], exit=False, maxtime=40), ["Resumes"]),
         "C06": ("live-flush", dict(nstmt=1, nflush=1, sizes=[96], exit=False, maxtime=40), ["FlushReturns"])}
@@ -302,7 +324,7 @@ def run_for(ck, prop):
     except spsc.ExtractFailed as ex:
         ck.drifted(f"constant extraction for Quill.tla failed: {ex}")
         return
-    ck.extra["quill_model_constants"] = {x: k[x] for x in ("Batch", "PublishWhenDrained", "ReportOnRemove", "RecheckOnRemove")}
+    ck.extra["quill_model_constants"] = {x: k[x] for x in ("Batch", "Pct", "PublishWhenDrained", "ReportOnRemove", "RecheckOnRemove")}
     first = True
     for label, d in CONFIGS[prop]["quick" if quick else "thorough"]:
         c = dict(BASE)
@@ -316,7 +338,7 @@ def run_for(ck, prop):
             if rc.violated is None:
                 need = [a for a in ACTIONS if not (a in ("FlushStart", "FlushCheck") and c["nflush"] == 0)
                         and not (a in ("RemoveLogger", "RemoveBlockingStart", "RemoveBlockingCheck") and not c.get("remove"))
-                        and not (a == "ThreadExit" and not c["exit"]) and not (a == "BBatchIter" and c["soft"] < 2 and False)]
+                        and not (a == "ThreadExit" and not c["exit"]) and not (a == "ShrinkQueue" and not c.get("shrink")) and not (a == "BBatchIter" and c["soft"] < 2 and False)]
                 for a in need:
                     if not vlib.enabled(rc, a) and a != "BBatchIter":
                         raise vlib.Infra(f"vacuity: {a} never enabled in Quill.tla config {label}")
